@@ -63,11 +63,14 @@ def main():
             "level_claimed": {
                 "category": "other",
                 "text": ("Repository-specific static analysis: %d obligation groups decide, for every input and every path at once, the structural clauses of '%s' that are "
-                         "visible in code shape (see DESIGN.md §4 %s). A pass means every such necessary condition holds on the current source; it does not certify "
-                         "the numerical / value-level behaviour, which is listed as not decided.") % (n, TITLES[pid], pid),
+                         "visible in code shape (see DESIGN.md §4 %s). A pass means every such necessary condition holds on the current source. Obligations of kind "
+                         "CELLS evaluate the functions' syntax trees with the project's own evaluator (nothing of /repo is imported or run): where the text of the "
+                         "obligation says so the cells are a complete partition of the quantified input and hold for every input, otherwise they are a stated finite "
+                         "set and decide only those cells (DESIGN.md §9.14-§9.16). Value-level behaviour outside these is not certified.") % (n, TITLES[pid], pid),
                 "design_ref": "DESIGN.md §4 " + pid,
             },
-            "level_note": ("Decided clauses only: " + m.EXPLANATION + " Rule kinds: " + "; ".join(dict.fromkeys(k for _, k, _f in m.OBLIGATIONS)) + ". Trusted base: Python ast of the working tree, the CFG / interval / layout / stack engines in /verif/sa, "
+            "level_note": ("Decided clauses only: " + m.EXPLANATION + " (The list of what is not decided predates the evaluation-based obligations; where a CELLS obligation below "
+                           "covers one of those items it decides the cells named in its evidence text, no more.) Rule kinds: " + "; ".join(dict.fromkeys(k for _, k, _f in m.OBLIGATIONS)) + ". Trusted base: Python ast of the working tree, the CFG / interval / layout / stack engines in /verif/sa, "
                            "oracle tables in /verif/spec transcribed from the cited specifications."),
             "technique": "static analysis: " + TECH[pid] + _extra_technique(m),
         })
